@@ -5,6 +5,9 @@
 #include <limits>
 #include <vector>
 #include "common_types.h"
+#ifdef TEAKRA_VERIF
+#include "verif_hooks.h"
+#endif
 
 namespace Teakra {
 
@@ -30,6 +33,10 @@ public:
         for (const auto& callbacks : registered_callbacks) {
             ticks = std::min(ticks, callbacks->GetMaxSkip());
         }
+#ifdef TEAKRA_VERIF
+        if (Verif::skip_observer)
+            Verif::skip_observer(ticks);
+#endif
         for (const auto& callbacks : registered_callbacks) {
             callbacks->Skip(ticks);
         }
